@@ -64,6 +64,8 @@ pub struct Behaviour {
     pub synack_error: Option<Vec<u8>>,
     /// the connection is closed as soon as a SYN arrives (the session dies while the opener waits)
     pub close_on_syn: bool,
+    /// everything the server sends leaves this many milliseconds late (a slow link)
+    pub reply_delay_ms: u64,
 }
 
 #[derive(Default, Debug)]
@@ -278,6 +280,9 @@ async fn serve(tls: &mut tokio_rustls::server::TlsStream<TcpStream>, password: &
             }
         }
         if !outgoing.is_empty() {
+            if beh.reply_delay_ms > 0 {
+                tokio::time::sleep(Duration::from_millis(beh.reply_delay_ms)).await;
+            }
             tls.write_all(&rc::encode_all(&outgoing)).await?;
             tls.flush().await?;
         }
